@@ -32,18 +32,26 @@ def main():
         results = list(ex.map(one, ids))
     table = {}
     for o in results:
-        valid = o.get("demo_clean_exit") == 0 and o.get("tests_pass") and o.get("demo_patched_exit", 0) != 0
-        caught = {k: v["exit"] == 1 for k, v in o.get("checks", {}).items()}
+        meta = json.load(open(os.path.join(SEEDED, o["id"], "meta.json")))
+        preserving = meta.get("kind") == "preserving"
+        if preserving:
+            valid = o.get("demo_clean_exit") == 0 and o.get("tests_pass") and o.get("demo_patched_exit") == 0
+        else:
+            valid = o.get("demo_clean_exit") == 0 and o.get("tests_pass") and o.get("demo_patched_exit", 0) != 0
+        caught = {k: v["exit"] != 0 for k, v in o.get("checks", {}).items()}
         table[o["id"]] = {"valid_seed": bool(valid), "caught_by": sorted(k for k, v in caught.items() if v),
                           "missed_by": sorted(k for k, v in caught.items() if not v),
                           "kinds": {k: v["kinds"] for k, v in o.get("checks", {}).items()},
-                          "tier": os.environ.get("MUT_TIER", "quick")}
-        print("%-7s valid=%s caught_by=%s missed_by=%s" % (o["id"], valid, table[o["id"]]["caught_by"], table[o["id"]]["missed_by"]))
+                          "tier": os.environ.get("MUT_TIER", "quick"),
+                          "kind": "preserving" if preserving else "breaking",
+                          "as_expected": bool(valid and ((not any(caught.values())) if preserving else any(caught.values())))}
+        print("%-7s %-10s valid=%s as_expected=%s alarms=%s silent=%s" % (o["id"], table[o["id"]]["kind"], valid,
+              table[o["id"]]["as_expected"], table[o["id"]]["caught_by"], table[o["id"]]["missed_by"]))
     if not sys.argv[1:]:
         with open(os.path.join(SEEDED, "RESULTS.json"), "w") as fh:
             json.dump(table, fh, indent=1, sort_keys=True)
             fh.write("\n")
-    return 0 if all(t["valid_seed"] and t["caught_by"] for t in table.values()) else 1
+    return 0 if all(t["as_expected"] for t in table.values()) else 1
 
 
 if __name__ == "__main__":
